@@ -92,6 +92,9 @@ def jobs(tier):
                                   'final_newline': True}})
         js.append({'name': 'text over an older output of 5 bytes', 'harness': (H, 'h_conform'),
                    'params': {'nlines': 1, 'menu_name': 'small', 'fixed': ['text'], 'le_choices': (b'\n',), 'pre_out_len': 5}})
+        for fill in (8189, 8190):
+            js.append({'name': 'first line of %d+2 bytes, then an include' % fill, 'harness': ('props.c16', 'h_long_first_line'),
+                       'params': {'fill': fill, 'second': b'-TXTPP#include f'}, 'max_steps': 8_000_000})
         js.append({'name': 'small 1 line', 'harness': (H, 'h_conform'), 'params': {'nlines': 1, 'menu_name': 'small'}})
         js.append({'name': 'small 1 line no-trailing', 'harness': (H, 'h_conform'), 'params': {'nlines': 1, 'menu_name': 'small', 'trailing': False}})
         js.append({'name': 'empty file', 'harness': (H, 'h_conform'), 'params': {'nlines': 0, 'menu_name': 'small'}})
